@@ -187,7 +187,7 @@ impl ConverterBuilder {
         let best = enum_map! {
             q =>  {
                 if let Some(best_units) = &self.best_units[q] {
-                    BestConversionsStore::new(best_units, &self.unit_index, &self.all_units)?
+                    BestConversionsStore::new(q, best_units, &self.unit_index, &self.all_units)?
                 } else {
                     return Err(ConverterBuilderError::EmptyBest { reason: "no best units given", quantity: q })
                 }
@@ -228,17 +228,18 @@ impl ConverterBuilder {
 
 impl BestConversionsStore {
     fn new(
+        quantity: PhysicalQuantity,
         best_units: &BestUnits,
         unit_index: &UnitIndex,
         all_units: &[UnitBuilder],
     ) -> Result<Self, ConverterBuilderError> {
         let v = match best_units {
             BestUnits::Unified(names) => {
-                Self::Unified(BestConversions::new(names, unit_index, all_units)?)
+                Self::Unified(BestConversions::new(quantity, names, unit_index, all_units)?)
             }
             BestUnits::BySystem { metric, imperial } => Self::BySystem {
-                metric: BestConversions::new(metric, unit_index, all_units)?,
-                imperial: BestConversions::new(imperial, unit_index, all_units)?,
+                metric: BestConversions::new(quantity, metric, unit_index, all_units)?,
+                imperial: BestConversions::new(quantity, imperial, unit_index, all_units)?,
             },
         };
         Ok(v)
@@ -247,13 +248,25 @@ impl BestConversionsStore {
 
 impl BestConversions {
     fn new(
+        quantity: PhysicalQuantity,
         units: &[String],
         unit_index: &UnitIndex,
         all_units: &[UnitBuilder],
     ) -> Result<Self, ConverterBuilderError> {
+        // every best unit has to belong to the quantity of the list: the
+        // thresholds below are conversions to the smallest one
         let mut units = units
             .iter()
-            .map(|n| unit_index.get_unit_id(n))
+            .map(|n| {
+                let id = unit_index.get_unit_id(n)?;
+                if all_units[id].physical_quantity != quantity {
+                    return Err(ConverterBuilderError::BestUnitQuantity {
+                        unit: n.clone(),
+                        quantity,
+                    });
+                }
+                Ok(id)
+            })
             .collect::<Result<Vec<_>, _>>()?;
 
         units.sort_by(|a, b| {
@@ -566,4 +579,10 @@ pub enum ConverterBuilderError {
 
     #[error("No SI prefixes found when expandind SI on a unit")]
     EmptySIPrefixes,
+
+    #[error("Best unit '{unit}' is not a unit of '{quantity}'")]
+    BestUnitQuantity {
+        unit: String,
+        quantity: PhysicalQuantity,
+    },
 }
